@@ -3,8 +3,86 @@
     first; a plan with an irreversible change is never reported reversible.
     Only statements, [exact], [Print Assumptions] and [Example]s live here. *)
 From Coq Require Import List NArith ZArith Bool Arith.
-From Atlas Require Import Base.Bytes Lex.DownModel Lex.DownProofs.
+From Atlas Require Import Base.Bytes Diff.Schema Diff.DiffModel Diff.DiffSqlite
+  Lex.DownModel Lex.DownProofs
+  Sqlite.PlanModel Sqlite.EngineModel Sqlite.InspectModel Sqlite.ReverseModel Sqlite.ReverseProofs.
 Import ListNotations.
+
+(** ** 1. Up then down restores the start state (SQLite: M-SQLITE planner + abstract engine)
+
+    Full statement:
+      forall db from to cs p db1,  PlanChanges from to cs = Some p -> p_reversible p = true ->
+        exec_all db (up_stmts (p_changes p)) = DownModel.Ok db1 ->
+        exists db2, exec_all db1 (down_stmts (p_changes p)) = DownModel.Ok db2 /\
+                    SchemaDiff (inspect db2) (inspect db) = [] = SchemaDiff (inspect db) (inspect db2).
+
+    Proved here (partial): for every well-formed engine state [d] (rows included, any
+    [foreign_keys] / transaction flag), every [from], every well-formed desired schema [to] and
+    every change list WITHOUT DropTable / DropIndex (AddTable with any indexes, ModifyTable with
+    AddColumn / AddIndex and whatever else the planner accepts), whenever the planner flags the
+    plan reversible and the up statements execute, the down statements execute too and the engine is
+    back in EXACTLY the state it started from (catalogue, rows and flags; hence every inspection
+    and every diff of the two is that of a state with itself).  Proof: per-change inverse lemmas
+    (DROP TABLE after CREATE TABLE, DROP INDEX after CREATE INDEX, DROP COLUMN after ADD COLUMN, each
+    from the success of the forward statement and the state invariant [db_wf]) composed by
+    induction over the change list; the planner lemma [plan_additive] shows a reversible plan of
+    such a list has no other arm (the table-rebuild path is never flagged).
+
+    Missing: the DropTable and DropIndex arms, whose reverse re-creates the object from the
+    *inspected* current schema -- restoring the catalogue only up to the order of tables / indexes,
+    the loss of rows and the renaming of inline UNIQUE constraints (see C17_*_refuted below and
+    notes/C17.md); MySQL / PostgreSQL (no engine in the sandbox). *)
+Theorem C17_reversible_sound_partial :
+  forall (from to : xschema) (cs : list schange) (p : plan) (d d1 : db),
+  db_wf d = true -> xschema_wf to = true -> no_drops cs = true ->
+  PlanChanges from to cs = Some p -> p_reversible p = true ->
+  exec_all d (up_stmts (p_changes p)) = EngineModel.Ok d1 ->
+  exec_all d1 (down_stmts (p_changes p)) = EngineModel.Ok d.
+Proof. exact reversible_sound_additive. Qed.
+Print Assumptions C17_reversible_sound_partial.
+
+(** engine level, for any list of planned changes of the three additive shapes *)
+Theorem C17_additive_changes_sound :
+  forall (l : list pchange) (d d1 : db),
+  db_wf d = true ->
+  forallb additive l = true -> forallb (fun pc => stmt_wf (pc_cmd pc)) l = true ->
+  exec_all d (up_stmts l) = EngineModel.Ok d1 ->
+  exec_all d1 (down_stmts l) = EngineModel.Ok d.
+Proof. exact additive_sound. Qed.
+Print Assumptions C17_additive_changes_sound.
+
+Definition ex_col (n : str) : column := mkColumn n 2 [105;110;116]%N true None None None.
+Definition ex_table : xtable :=
+  mkX (mkTable [116]%N false false [ex_col [97]%N; ex_col [98]%N] None
+         [mkIndex [105;120]%N true [mkPart 0 false (Some [98]%N) None] None None None] [] []) [].
+Definition ex_table2 : xtable :=
+  mkX (mkTable [116]%N false false [ex_col [97]%N; ex_col [98]%N; ex_col [99]%N] None
+         [mkIndex [105;120]%N true [mkPart 0 false (Some [98]%N) None] None None None;
+          mkIndex [105;99]%N false [mkPart 0 false (Some [97]%N) None] None None None] [] []) [].
+(** non-vacuity: CREATE TABLE t + CREATE UNIQUE INDEX ix, then on the result ADD COLUMN c +
+    CREATE INDEX ic: both plans are flagged reversible, execute, and their down statements run. *)
+Example C17_reversible_sound_nonvacuous :
+  match PlanChanges [] [ex_table] [AddTable [116]%N] with
+  | Some p =>
+      p_reversible p = true /\ length (p_changes p) = 2%nat /\
+      match exec_all empty_db (up_stmts (p_changes p)) with
+      | EngineModel.Ok d1 =>
+          db_tables d1 <> [] /\
+          exec_all d1 (down_stmts (p_changes p)) = EngineModel.Ok empty_db /\
+          match PlanChanges [ex_table] [ex_table2] [ModifyTable [116]%N [AddColumn [99]%N; AddIndex [105;99]%N]] with
+          | Some p2 =>
+              p_reversible p2 = true /\ length (p_changes p2) = 2%nat /\
+              match exec_all d1 (up_stmts (p_changes p2)) with
+              | EngineModel.Ok d2 => d2 <> d1 /\ exec_all d2 (down_stmts (p_changes p2)) = EngineModel.Ok d1
+              | EngineModel.Err _ => False
+              end
+          | None => False
+          end
+      | EngineModel.Err _ => False
+      end
+  | None => False
+  end.
+Proof. vm_compute. repeat split; discriminate. Qed.
 
 (** ** 2. The flag (sql/internal/sqlx/plan.go: SetReversible)
 
@@ -33,13 +111,13 @@ Proof. vm_compute. auto. Qed.
     never panics, needs no more than [len] rounds, leaves no nil slot, and returns the reversed
     list -- for every element type and every list. *)
 Theorem C17_rev_is_rev :
-  forall (A : Type) (changes : list A), reverse changes = Ok (List.rev changes).
+  forall (A : Type) (changes : list A), reverse changes = DownModel.Ok (List.rev changes).
 Proof. exact (@reverse_is_rev_lemma). Qed.
 Print Assumptions C17_rev_is_rev.
 
 Example C17_rev_is_rev_nonvacuous :
-  reverse [1;2;3;4;5]%N = Ok [5;4;3;2;1]%N /\ reverse [1;2;3;4]%N = Ok [4;3;2;1]%N /\
-  reverse (@nil N) = Ok [].
+  reverse [1;2;3;4;5]%N = DownModel.Ok [5;4;3;2;1]%N /\ reverse [1;2;3;4]%N = DownModel.Ok [4;3;2;1]%N /\
+  reverse (@nil N) = DownModel.Ok [].
 Proof. vm_compute. auto. Qed.
 
 (** ** 4. The down sections
@@ -63,28 +141,28 @@ Hypothesis scan_comment : forall c rest,
 (** golang-migrate: the [*.down.sql] file. *)
 Theorem C17_downfile_golang_migrate :
   forall changes, (forall c, In c changes -> change_ok scan_closed comment_ok c) ->
-  exists d, golang_migrate_down changes = Ok d /\
+  exists d, golang_migrate_down changes = DownModel.Ok d /\
             scan d = flat_map ReverseStmts (List.rev changes).
 Proof. exact (down_body_scan scan scan_closed comment_ok scan_nil scan_stmt scan_comment). Qed.
 
 (** flyway: the [U*.sql] file. *)
 Theorem C17_downfile_flyway :
   forall changes, (forall c, In c changes -> change_ok scan_closed comment_ok c) ->
-  exists d, flyway_down changes = Ok d /\
+  exists d, flyway_down changes = DownModel.Ok d /\
             scan d = flat_map ReverseStmts (List.rev changes).
 Proof. exact (down_body_scan scan scan_closed comment_ok scan_nil scan_stmt scan_comment). Qed.
 
 (** goose: the text behind "-- +goose Down". *)
 Theorem C17_downfile_goose :
   forall changes, (forall c, In c changes -> change_ok scan_closed comment_ok c) ->
-  exists d, goose_file changes = Ok (s_goose_up ++ up_body changes ++ s_goose_down ++ d) /\
+  exists d, goose_file changes = DownModel.Ok (s_goose_up ++ up_body changes ++ s_goose_down ++ d) /\
             scan d = flat_map ReverseStmts (List.rev changes).
 Proof. exact (goose_file_scan scan scan_closed comment_ok scan_nil scan_stmt scan_comment). Qed.
 
 (** dbmate: the text behind "-- migrate:down". *)
 Theorem C17_downfile_dbmate :
   forall changes, (forall c, In c changes -> change_ok scan_closed comment_ok c) ->
-  exists d, dbmate_file changes = Ok (s_dbmate_up ++ up_body changes ++ s_dbmate_down ++ d) /\
+  exists d, dbmate_file changes = DownModel.Ok (s_dbmate_up ++ up_body changes ++ s_dbmate_down ++ d) /\
             scan d = flat_map ReverseStmts (List.rev changes).
 Proof. exact (dbmate_file_scan scan scan_closed comment_ok scan_nil scan_stmt scan_comment). Qed.
 End C17_downfile.
@@ -110,7 +188,7 @@ Definition ex_changes : list mchange :=
 Example C17_downfile_nonvacuous :
   (forall c, In c ex_changes -> change_ok line_closed no_nl c) /\
   match golang_migrate_down ex_changes with
-  | Ok d => line_scan d = [[82;51;97]%N; [82;51;98]%N; [82;49]%N]
+  | DownModel.Ok d => line_scan d = [[82;51;97]%N; [82;51;98]%N; [82;49]%N]
   | _ => False
   end /\
   flat_map ReverseStmts (List.rev ex_changes) = [[82;51;97]%N; [82;51;98]%N; [82;49]%N].
@@ -156,3 +234,43 @@ Proof.
   intros c [<-|[<-|[<-|[]]]]; (split; [reflexivity|split; [reflexivity|]]);
     intros s Hs; vm_compute in Hs; intuition; subst; reflexivity.
 Qed.
+
+(** ** 2b. The flag of the SQLite planner (sql/sqlite/migrate.go: PlanChanges)
+
+    The literal statement "Plan.Reversible = every change of Plan.Changes has a reverse" is false
+    of the SQLite planner: dropping a table gives a plan flagged reversible whose first and last
+    change (the PRAGMA foreign_keys bracket) have none.  Reproduced on the real driver
+    (known finding C17-pragma-bracket-no-reverse). *)
+Theorem C17_sqlite_flag_refuted :
+  exists (from to : xschema) (cs : list schange) (p : plan),
+    PlanChanges from to cs = Some p /\ p_reversible p = true /\
+    forallb pc_has_reverse (p_changes p) = false.
+Proof.
+  exists [ex_table], [], [DropTable [116]%N].
+  eexists. split; [vm_compute; reflexivity|]. split; reflexivity.
+Qed.
+Print Assumptions C17_sqlite_flag_refuted.
+
+(** What holds for every plan: the flag is the [forallb] over the planned changes without the
+    bracket, and those two changes are the only ones the flag does not look at. *)
+Theorem C17_sqlite_flag_except :
+  forall (from to : xschema) (cs : list schange) (p : plan),
+  PlanChanges from to cs = Some p ->
+  exists core,
+    (p_changes p = core \/ p_changes p = pragma_off :: core ++ [pragma_on]) /\
+    p_reversible p = forallb pc_has_reverse core.
+Proof. exact sqlite_flag_except. Qed.
+Print Assumptions C17_sqlite_flag_except.
+
+(** The Go-level view of a planned change list ([to_mchange]: the rendered SQL of each abstract
+    statement; [Reverse] a string for one statement, a []string for several, nil for none):
+    [sqlx.SetReversible] computes the model's flag, and the statements every down section holds
+    (item 4) are the rendered [down_stmts] of item 1. *)
+Theorem C17_sqlite_down_statements :
+  forall (render : stmt -> bytes) (comment : ckind -> bytes) (l : list pchange),
+  SetReversible (map (to_mchange render comment) l) = forallb pc_has_reverse l /\
+  flat_map ReverseStmts (List.rev (map (to_mchange render comment) l)) = map render (down_stmts l).
+Proof.
+  intros. split; [apply SetReversible_to_mchange|apply flat_ReverseStmts_to_mchange].
+Qed.
+Print Assumptions C17_sqlite_down_statements.
